@@ -286,6 +286,41 @@ fn roundtrip() -> R {
     // untagged route
     let v = must!(Envelope::from_untagged_cbor(e.untagged_cbor()), "untagged decode failed");
     ensure!(bytes(&v) == b, "untagged round trip not identical", "");
+    routes_agree(&e, &b)
+}
+
+/// every public encode / decode route (tagged / untagged CBOR value, CBOR bytes, `TryFrom<CBOR>` / `From<Envelope>`,
+/// UR value and UR string) agrees with the canonical bytes `b` of `e` and returns an envelope identical to `e`
+fn routes_agree(e: &Envelope, b: &[u8]) -> R {
+    op("encode routes");
+    ensure!(e.to_cbor().to_cbor_data() == b, "to_cbor differs from tagged_cbor", "");
+    ensure!(CBOR::from(e.clone()).to_cbor_data() == b, "From<Envelope> for CBOR differs from tagged_cbor", "");
+    ensure!(e.tagged_cbor_data() == b, "tagged_cbor_data differs from tagged_cbor", "");
+    ensure!(e.to_cbor_data() == b, "to_cbor_data differs from tagged_cbor", "");
+    ensure!(e.ur().cbor().to_cbor_data() == e.untagged_cbor().to_cbor_data(), "UR payload is not the untagged CBOR", "");
+    let same = |what: &'static str, r: anyhow::Result<Envelope>| -> R {
+        let d = match r { Ok(d) => d, Err(x) => return rt::viol("decode route refused the library's own encoding", format!("{}: {}", what, x)) };
+        ensure!(d.is_identical_to(e) && e.is_identical_to(&d) && d == *e, "decode route returned an envelope that is not identical", "{}", what);
+        ensure!(d.digest() == e.digest(), "decode route changed the digest", "{}", what);
+        ensure!(d.tagged_cbor().to_cbor_data() == b, "decode route result re-encodes differently", "{}", what);
+        let (pe, pd) = (positions(e), positions(&d));
+        ensure!(pe.len() == pd.len(), "decode route changed the number of elements", "{}", what);
+        for (x, y) in pe.iter().zip(pd.iter()) { ensure!(x.path == y.path && x.kind == y.kind && x.d == y.d, "decode route changed case or digest of an element", "{} at {:?}", what, x.path); }
+        Ok(())
+    };
+    op("decode routes");
+    same("try_from_cbor(to_cbor)", Envelope::try_from_cbor(e.to_cbor()))?;
+    same("TryFrom<CBOR>", Envelope::try_from(CBOR::from(e.clone())))?;
+    same("from_tagged_cbor", Envelope::from_tagged_cbor(e.tagged_cbor()))?;
+    same("from_tagged_cbor_data", Envelope::from_tagged_cbor_data(b))?;
+    same("from_untagged_cbor", Envelope::from_untagged_cbor(e.untagged_cbor()))?;
+    same("from_untagged_cbor_data", Envelope::from_untagged_cbor_data(e.untagged_cbor().to_cbor_data()))?;
+    same("from_ur(ur)", Envelope::from_ur(e.ur()))?;
+    same("from_ur_string(ur_string)", Envelope::from_ur_string(e.ur_string()))?;
+    same("from_ur_string(upper-case ur_string)", Envelope::from_ur_string(e.ur_string().to_uppercase()))?;
+    // the UR string itself is a function of the bytes
+    let u2 = must!(Envelope::from_ur_string(e.ur_string()), "UR decode failed");
+    ensure!(u2.ur_string() == e.ur_string(), "UR string not stable over a round trip", "");
     Ok(())
 }
 
@@ -312,7 +347,7 @@ fn after_operation() -> R {
     op("ur_string/from_ur_string");
     let u = must!(Envelope::from_ur_string(e.ur_string()), "UR decode failed");
     ensure!(u.is_identical_to(&e) && bytes(&u) == b, "UR round trip not identical", "");
-    Ok(())
+    routes_agree(&e, &b)
 }
 
 fn roundtrip_leaves() -> R {
@@ -356,7 +391,7 @@ fn roundtrip_leaves() -> R {
     }
     let u = must!(Envelope::from_ur_string(e.ur_string()), "UR decode failed");
     ensure!(bytes(&u) == b, "UR round trip not identical", "{}", name);
-    Ok(())
+    routes_agree(&e, &b)
 }
 
 // ------------------------------------------------------------------------------------ C06
